@@ -14,6 +14,7 @@ import (
 	"git.defalsify.org/vise.git/cache"
 	"git.defalsify.org/vise.git/engine"
 	"git.defalsify.org/vise.git/persist"
+	"git.defalsify.org/vise.git/resource"
 	"git.defalsify.org/vise.git/state"
 	"git.defalsify.org/vise.git/vm"
 )
@@ -64,6 +65,7 @@ type walker struct {
 	sid   string
 	en    *engine.DefaultEngine
 	store dbLike
+	first bool // the application has a pre-VM check (engine.WithFirst) that lets every request pass
 }
 
 func (w *walker) request(in string) (out string, cont bool, failed bool) {
@@ -77,6 +79,11 @@ func (w *walker) request(in string) (out string, cont bool, failed bool) {
 			w.en = w.en.WithPersister(pe)
 		} else {
 			w.en = w.en.WithState(state.NewState(2)).WithMemory(cache.NewCache())
+		}
+		if w.first {
+			w.en = w.en.WithFirst(func(ctx context.Context, sym string, input []byte) (resource.Result, error) {
+				return resource.Result{}, nil
+			})
 		}
 	}
 	defer func() {
@@ -159,7 +166,8 @@ func cmdWalkRun(args []string) error {
 		p.Nodes["msub"] = msubNode(items)
 		p.build()
 		mode := []string{"L", "P"}[si%2]
-		w := &walker{p: p, mode: mode, sid: fmt.Sprintf("w%d", si), store: newMemStore()}
+		// (every third walk through an application with a pre-VM check: it runs in every request of persisted operation)
+		w := &walker{p: p, mode: mode, sid: fmt.Sprintf("w%d", si), store: newMemStore(), first: si%3 == 2}
 		lastOut := ""
 		walk := func(first string, node string, visit int, rows []string, head, ord, nl, pl string) bool {
 			ev := walkEvent{Ev: "walk", Sid: w.sid, Mode: mode, Node: node, Visit: visit, Rows: rows,
